@@ -66,52 +66,78 @@ Theorem find_solution_least_cost : forall a d c, find_solution a d = Some c ->
 Proof. exact find_solution_min_cost. Qed.
 Print Assumptions find_solution_least_cost.
 
-(* search level: in the linear-search phase the returned duration is the SMALLEST duration of the range
-   [min_duration, lin_max] for which _find_solution succeeds (unconditional) *)
+(* UNCONDITIONAL minimality at search level, both phases (repaired source: rescan after the binary search):
+   for end points within 99 percent of max_grad (+ the filter tolerance) the returned duration is the LEAST
+   duration >= min_duration for which _find_solution succeeds.  The proof uses the area bound behind
+   `shortest_conceivable`: a candidate accepted by the filter encloses at most d * raster * (max_grad + 1e-8).
+   Caveat kept explicit: termination of the doubling loop is not proved (fuel; OutOfFuel is not OK). *)
+Theorem eta_smallest_feasible : forall fd fb a o, eta fd fb a = OK o ->
+  Qabs (e_gs a) <= mgrad a + eta_amp_tol -> Qabs (e_ge a) <= mgrad a + eta_amp_tol ->
+  find_solution a (o_dur o) <> None /\ (min_duration a <= o_dur o)%Z /\
+  forall d', (min_duration a <= d' < o_dur o)%Z -> find_solution a d' = None.
+Proof. exact eta_smallest_feasible_lem. Qed.
+Print Assumptions eta_smallest_feasible.
+
+(* the linear-search phase needs no hypothesis on the end points *)
 Theorem eta_linear_smallest_feasible : forall fd fb a o, eta fd fb a = OK o -> (o_dur o <= lin_max a)%Z ->
   find_solution a (o_dur o) <> None /\ (min_duration a <= o_dur o)%Z /\
   forall d', (min_duration a <= d' < o_dur o)%Z -> find_solution a d' = None.
 Proof. exact eta_linear_smallest_feasible_lem. Qed.
 Print Assumptions eta_linear_smallest_feasible.
 
-(* search level, binary-search phase included, under the monotonicity hypothesis (PARTIAL, see below) *)
-Theorem eta_smallest_feasible_partial : forall fd fb a o, eta fd fb a = OK o ->
-  Monotone_feasible_from a (lin_max a) ->
-  find_solution a (o_dur o) <> None /\
-  forall d', (min_duration a <= d' < o_dur o)%Z -> find_solution a d' = None.
-Proof. exact eta_binary_smallest_feasible_lem. Qed.
-Print Assumptions eta_smallest_feasible_partial.
+(* the area bound itself: whatever duration has a solution is at least `shortest_conceivable` *)
+Theorem feasible_not_below_shortest_conceivable : forall a d c, 0 < rast a -> find_solution a d = Some c ->
+  Qabs (e_gs a) <= mgrad a + eta_amp_tol -> Qabs (e_ge a) <= mgrad a + eta_amp_tol ->
+  (shortest_conceivable a <= d)%Z.
+Proof. exact feasible_ge_shortest_conceivable. Qed.
+Print Assumptions feasible_not_below_shortest_conceivable.
 
-(* linear-search phase (returned duration within the ramp-to-zero bound): the result is the SMALLEST duration
-   with a solution, hence no two-ramp gradient within 99 percent of the limits with fewer rasters exists.
-   Unconditional apart from max_slew > 0. *)
+(* UNCONDITIONAL "no shorter ramp pair" (the property's last sentence), both phases:
+   (i) no two-ramp gradient within 99 percent of the limits with fewer raster steps, and
+   (ii) none within the limits the code enforces (99 percent + 1e-8) from the search's lower bound upwards. *)
+Theorem eta_minimal : forall fd fb a o, eta fd fb a = OK o -> 0 < s_max_slew (e_sys a) ->
+  Qabs (e_gs a) <= mgrad a + eta_amp_tol -> Qabs (e_ge a) <= mgrad a + eta_amp_tol ->
+  no_shorter_two_ramp a (o_dur o) /\ no_shorter_two_ramp_tol a (o_dur o).
+Proof. exact eta_minimal_lem. Qed.
+Print Assumptions eta_minimal.
+
+(* linear-search phase: no hypothesis on the end points *)
 Theorem eta_minimal_linear_range : forall fd fb a o, eta fd fb a = OK o -> 0 < s_max_slew (e_sys a) ->
   (o_dur o <= lin_max a)%Z -> no_shorter_two_ramp a (o_dur o).
 Proof. exact eta_minimal_linear_range_lem. Qed.
 Print Assumptions eta_minimal_linear_range.
 
-(* any phase, under the monotonicity the code's comment assumes beyond the ramp-to-zero duration.
-   PARTIAL: Monotone_feasible_from (lin_max a) is a hypothesis, not proved of the model (dead zones do exist
-   below lin_max, see C12_dead_zone_example); without it only eta_prev_infeasible below is proved for results
-   of the binary-search phase.  The brute-force oracle of the check evaluates the unconditional claim on
-   every generated case. *)
-Theorem eta_minimal_partial : forall fd fb a o, eta fd fb a = OK o -> 0 < s_max_slew (e_sys a) ->
-  Monotone_feasible_from a (lin_max a) -> no_shorter_two_ramp a (o_dur o).
-Proof. exact eta_minimal_partial_lem. Qed.
-Print Assumptions eta_minimal_partial.
+(* REFUTED for the algorithm before repair 7df2246 ([eta_old]: binary-search result without rescan):
+   on Opts(max_grad=10 mT/m, max_slew=200 T/m/s), grad_start = grad_end = -399118.9, area = -9.94 it returns
+   18 raster steps although the ramp pair 8 + 8 exists (a dead space above the linear range: the doubling
+   jumps 5 -> 10 -> 20, the binary search looks in (10, 20], 17 is infeasible, 16 is feasible). *)
+Definition old_sys : etaSys := {| s_max_grad := 425760; s_max_slew := 8515200000; s_raster := 1 # 100000 |}.
+Definition old_args : etaArgs :=
+  {| e_sys := old_sys; e_gs := - (3991189 # 10); e_ge := - (3991189 # 10); e_area := - (497 # 50) |}.
+Theorem eta_old_minimal_refuted :
+  exists a o, eta_old 40 200 a = OK o /\ 0 < s_max_slew (e_sys a) /\
+              Qabs (e_gs a) <= mgrad a /\ Qabs (e_ge a) <= mgrad a /\ ~ no_shorter_two_ramp a (o_dur o).
+Proof.
+  destruct (eta_old 40 200 old_args) as [o|e] eqn:E; [|vm_compute in E; discriminate].
+  exists old_args, o. repeat split; try exact E; try reflexivity; try (apply Qle_bool_iff; vm_compute; reflexivity).
+  intro H.
+  assert (D : o_dur o = 18%Z) by (vm_compute in E; injection E as <-; reflexivity).
+  apply (H 8 8 (amp_of old_args 16 8 8))%Z; [rewrite D; reflexivity|].
+  apply two_ramp_b_sound. vm_compute. reflexivity.
+Qed.
+Print Assumptions eta_old_minimal_refuted.
 
-(* unconditional, both phases: one raster less is never enough *)
-Theorem eta_prev_infeasible : forall fd fb a o, eta fd fb a = OK o -> 0 < s_max_slew (e_sys a) ->
-  forall ru rd ga, (ru + rd = o_dur o - 1)%Z -> ~ two_ramp a (mgrad a) (mslew a) (mslew a) ru rd ga.
-Proof. exact eta_prev_infeasible_lem. Qed.
-Print Assumptions eta_prev_infeasible.
+(* the repaired algorithm returns the 16 steps on the same input *)
+Example C12_reproducer_repaired :
+  match eta 40 200 old_args with OK o => o_dur o = 16%Z | Err _ => False end.
+Proof. vm_compute. reflexivity. Qed.
 
 (* the constants read from the source are the ones the property text names: 99 percent of both limits, area to
    1e-8, filter tolerances not above 1e-8 (a changed factor or tolerance in the source breaks this obligation) *)
 Example C12_constants_as_in_property_text :
   eta_slew_factor == 99 # 100 /\ eta_grad_factor == 99 # 100 /\ eta_area_tol <= 1 # 100000000 /\
   eta_amp_tol <= 1 # 100000000 /\ eta_slew1_tol <= 1 # 100000000 /\ eta_slew2_tol <= 1 # 100000000 /\
-  eta_min_dur = 2%Z.
+  eta_min_dur = 2%Z /\ eta_amp_tol <= eta_sc_tol.
 Proof. repeat split; try reflexivity; discriminate. Qed.
 
 (* ---- non-vacuity: concrete argument sets (the repository's test zoo on a default-like system) ---- *)
@@ -144,11 +170,12 @@ Example C12_dead_zone_example :
   find_solution dz_args 26 <> None /\ find_solution dz_args 39 = None.
 Proof. vm_compute. repeat split; try discriminate. Qed.
 
-(* the hypotheses of the minimality theorems are satisfiable on the examples: positive slew limit, and
-   feasibility is monotone on the probed range beyond lin_max for the triangle example *)
-Example C12_example_monotone_range :
+(* the hypotheses of the minimality theorem are satisfiable on the examples: positive slew limit, end points
+   within 99 percent; and the result on the triangle example is indeed the least feasible duration *)
+Example C12_example_hypotheses :
   0 < s_max_slew ex_sys /\
+  Qabs (e_gs (ex_args 1685970 1685970 (-1))) <= mgrad (ex_args 1685970 1685970 (-1)) + eta_amp_tol /\
   forallb (fun i => let d := (2 + Z.of_nat i)%Z in
              match find_solution (ex_args 0 0 100) d with None => (d <? 24)%Z | Some _ => (24 <=? d)%Z end)
           (seq 0 40) = true.
-Proof. split; [reflexivity|vm_compute; reflexivity]. Qed.
+Proof. split; [reflexivity|split; [apply Qle_bool_iff; vm_compute; reflexivity|vm_compute; reflexivity]]. Qed.
